@@ -2212,8 +2212,7 @@ func (ctx Ctx) globalVarDecl(d *ast.GenDecl) []coq.Decl {
 	var specs []coq.Decl
 	for _, spec := range d.Specs {
 		vs := spec.(*ast.ValueSpec)
-		switch t := ctx.typeOf(vs.Names[0]); t.Underlying().(type) {
-		case *types.Pointer, *types.Slice, *types.Map, *types.Chan, *types.Signature, *types.Interface:
+		if t := ctx.typeOf(vs.Names[0]); holdsReference(t) {
 			// the definition is re-evaluated wherever the global is used, so
 			// every use would get a fresh lock, wait group, cell, slice or map
 			ctx.unsupported(vs, "global variable of type %v (globals are translated as constants)", t)
@@ -2222,6 +2221,24 @@ func (ctx Ctx) globalVarDecl(d *ast.GenDecl) []coq.Decl {
 		specs = append(specs, ctx.constSpec(vs))
 	}
 	return specs
+}
+
+// holdsReference reports whether a value of type t is or contains a pointer,
+// slice, map, channel, function or interface value.
+func holdsReference(t types.Type) bool {
+	switch t := t.Underlying().(type) {
+	case *types.Pointer, *types.Slice, *types.Map, *types.Chan, *types.Signature, *types.Interface:
+		return true
+	case *types.Struct:
+		for i := 0; i < t.NumFields(); i++ {
+			if holdsReference(t.Field(i).Type()) {
+				return true
+			}
+		}
+	case *types.Array:
+		return holdsReference(t.Elem())
+	}
+	return false
 }
 
 func stringLitValue(lit *ast.BasicLit) string {
